@@ -320,6 +320,7 @@ package fiber
 //@     invariant entry-arrays-untouched: entryKept(app)
 //@     invariant done-stacks-have-no-marker: forall(mm, 0, rangeindex + 1, forall(ii, 0, len(app.stack[mm]), !app.stack[mm][ii].mount))
 //@     invariant done-stacks-numbered: forall(mm, 0, rangeindex + 1, consecutive(app.stack[mm], len(app.stack[mm])))
+//@     invariant [C01 C04] changed-table-is-flagged-for-rebuild: forall(mm, 0, rangeindex + 1, app.stack[mm] == old(app.stack[mm])) || app.routesRefreshed
 //@   loop 3
 //@     invariant tables-wf: tablesWf(app)
 //@     invariant routes-distinct: routesDistinct(app)
@@ -333,12 +334,14 @@ package fiber
 //@     invariant done-stacks-numbered: forall(mm, 0, m, consecutive(app.stack[mm], len(app.stack[mm])))
 //@     invariant done-routes-are-no-marker: forall(ii, 0, i, !app.stack[m][ii].mount)
 //@     invariant done-routes-numbered: consecutive(app.stack[m], i) && (i > 0 ==> app.stack[m][i-1].pos == routePos)
+//@     invariant [C01 C04] changed-table-is-flagged-for-rebuild: (forall(mm, 0, m, app.stack[mm] == old(app.stack[mm])) && app.stack[m] == old(app.stack[m])) || app.routesRefreshed
 //@   loop 4
 //@     invariant tables-wf: tablesWf(app)
 //@     invariant routes-distinct: routesDistinct(app)
 //@     invariant later-stacks-untouched: forall(mm, m + 1, len(app.stack), app.stack[mm] == old(app.stack[mm]))
 //@     invariant entry-arrays-untouched: entryKept(app)
 //@     invariant tail-is-the-entry-tail: forall(kk, i, stackLen, app.stack[m][kk] == old(app.stack[m])[kk - stackLen + old(len(app.stack[m]))])
+//@     invariant [C01 C04] changed-table-is-flagged-for-rebuild: (forall(mm, 0, m, app.stack[mm] == old(app.stack[mm])) && app.stack[m] == old(app.stack[m])) || app.routesRefreshed
 //@     invariant clones-so-far: forall(jj, 0, rangeindex + 1, subRoutes[jj] != nil && allocated(subRoutes[jj]) && !wasAllocated(subRoutes[jj]) && !subRoutes[jj].mount)
 //@     invariant clones-distinct: forall(bb, 0, rangeindex + 1, forall(aa, 0, bb, subRoutes[aa] != subRoutes[bb]))
 //@     invariant clones-are-new: forall(jj, 0, rangeindex + 1, forall(mm, 0, len(app.stack), forall(ii, 0, len(app.stack[mm]), subRoutes[jj] != app.stack[mm][ii])))
@@ -361,4 +364,8 @@ package fiber
 //@   atcall (*App).addPrefixToRoute: prefix-is-the-markers-registered-pattern: prefix == app.stack[m][i].Path && app.stack[m][i].mount && arg2 == last((*App).copyRoute)
 //@   atcall (*App).copyRoute: sub-app-already-spliced: !subAppRoute.mount
 //@   ensures no-marker-left: noMarkers(app)
+// The lookup index (treeStack) is a function of the tables it was built from: whenever the splice replaced a method's
+// table, the application is flagged so that the start-up step that follows (buildTree) rebuilds the index - even when a
+// RebuildTree() between the mount and the start-up had cleared the flag that registering the marker set.
+//@   ensures [C01 C04] changed-table-is-flagged-for-rebuild: forall(mm, 0, len(app.stack), app.stack[mm] == old(app.stack[mm])) || app.routesRefreshed
 //@   ensures positions-consecutive-in-stack-order: forall(mm, 0, len(app.stack), consecutive(app.stack[mm], len(app.stack[mm])))
